@@ -124,7 +124,7 @@ EXTRA = {
     "C08": " An mmCIF dialect whose label_seq_id repeats the author number is drawn too.",
     "C05": " The PDB-vs-mmCIF relation is also composed with a constant offset of the author numbers (negative numbers in both formats).",
     "C04": " CROWDED placements (2-16 perturbed copies of a run of 1-3 bases as chains of one model; a base has up to ~40 centroids within 6 A) are judged by the same all-pairs definition. Mini-structures carry drawn occupancies (0.00 / 0.5 / absent) and uridines relettered to thymidines.",
-    "C06": " Generated pair lists name residues by one drawn convention: as the structure does, by author identity only, by label only, or by both with a label the structure does not have. or as Residue3D objects of another structure object.",
+    "C06": " Generated pair lists name residues by one drawn convention: as the structure does, by author identity only, by label only, by both with a label the structure does not have, or as Residue3D objects of another structure object.",
     "C07": " Before the elements are asked one of 9 histories of read-only queries (paired() iterated partly / fully, text, fcfs, dot_bracket) runs on the same object. After the first answer one of 7 histories of later queries (explicit conversion without / with a solver, fcfs, removals) runs and elements and dot-bracket are read again together.",
     "C09": " Model numbers are drawn too (ascending, 3-1-2, 7-2-5, 10-20-30, 0-1-2), for tables and splitter inputs.",
     "C11": " Mini-structures may carry a residue as two non-adjacent record blocks of one identity (the reference model merges them; self-contact, membership, order and class soundness are judged on identities).",
